@@ -176,7 +176,7 @@ func muteStageRule(o *Ob) {
 
 func init() {
 	propInfos["C02"] = &propInfo{
-		Explanation: "Decides the structure the mute verdict rests on: (1) the silencer stage sits in every receiver pipeline before delivery and passes an alert on iff Mutes is false; (2) getState's strict table; (3) Silencer.Mutes takes the fast path only when the cached version equals the store version and nothing was cached, re-queries cached ids (active+pending) iff any, queries silences newer than the cached version (matching the labels) iff versions differ, caches that query's version (never a later one) with all active+pending ids, and mutes iff an id is active now; (4) the store's indexes have a fixed writer set, all under the write lock, version bumped before indexing; (5) cache-invalidation discipline: every overwrite of an existing id must either bump the version or be unable to revive an expired silence; (6) Query applies all filters, QState uses the query's now, QMatches the compiled matcher sets (one fresh slice per set); (7) alert GC evicts the cache; cache under its lock.",
+		Explanation: "Decides the structure the mute verdict rests on: (1) the silencer stage sits in every receiver pipeline before delivery and passes an alert on iff Mutes is false; (2) getState's strict table; (3) Silencer.Mutes takes the fast path only when the cached version equals the store version and nothing was cached, re-queries cached ids (active+pending) iff any, queries silences newer than the cached version (matching the labels) iff versions differ, caches that query's version (never a later one) with all active+pending ids, and mutes iff an id is active now; (4) the store's indexes have a fixed writer set, all under the write lock, version bumped before indexing; (5) cache-invalidation discipline: every overwrite of an existing id must either bump the version or be unable to revive an expired silence; (6) Query applies all filters, QState uses the query's now, QMatches the compiled matcher sets (one fresh slice per set); (7) alert GC evicts the cache; cache under its lock; (7) what is stored is the newest version of a silence: state.merge is a last-writer-wins join (shared with C09).",
 		NotDecided:  "equality of Mutes with a brute-force evaluation over all histories (C02.5 is the per-mutation discipline that equality needs, not the induction); 'takes effect at the next flush' (timing).",
 	}
 
